@@ -99,8 +99,16 @@ def evaluate(spec, values, namespace=None, context=None, ns_context=None, extra_
         info = out[f]
         in_keys = {}
         in_vals = {}
-        for n, tgt in info['inputs'].items():
+        lazy = info['spec'].get('access') == 'lazy' and not info['param_values'].get('use_all')
+        for pos, (n, tgt) in enumerate(info['inputs'].items()):
             k = n.split('::')[-1]
+            if lazy and pos > 0:
+                finish(tgt, stack + (f,)) if not isinstance(tgt, tuple) else None
+                rel = n[len(pre):] if pre else n
+                if not isinstance(tgt, tuple):
+                    in_keys[rel] = out[tgt]['key']
+                in_vals[k] = 'not read'
+                continue
             if isinstance(tgt, tuple):
                 in_vals[k] = tgt[1]
                 continue
